@@ -149,6 +149,23 @@ Theorem C08_range_rejected : forall rd n gs fl samples f st,
 Proof. exact s_range_rejected. Qed.
 Print Assumptions C08_range_rejected.
 
+(* pairwise generators built from two feature lists (after repo fix: the stored index pair is never swapped): every
+   generated feature combines an entry of the FIRST list with an entry of the SECOND list (so both row numbers are inside
+   their mappings), and every unordered pair {a, b}, a in list 1, b in list 2, is generated *)
+Theorem C08_pairwise_sources : forall (m1 m2 : list Z),
+  (forall a b, In (a, b) (make_pairwise m1 m2) -> In a m1 /\ In b m2) /\
+  (forall a b, In a m1 -> In b m2 ->
+     exists a' b', In (a', b') (make_pairwise m1 m2) /\ Z.min a' b' = Z.min a b /\ Z.max a' b' = Z.max a b).
+Proof.
+  intros m1 m2. split; [intros a b; apply make_pairwise_sources | intros a b; apply make_pairwise_complete].
+Qed.
+Print Assumptions C08_pairwise_sources.
+
+Example C08_nonvacuous_pairwise :
+  make_pairwise [5; 2] [1] = [(2, 1); (5, 1)] /\ make_pairwise [5; 6] [6; 7] = [(5, 6); (5, 7); (6, 6); (6, 7)] /\
+  make_pairwise [5; 2] [5; 2] = [(2, 2); (5, 2); (5, 5)].
+Proof. vm_compute. repeat split; reflexivity. Qed.
+
 (* accepted reads stay inside the pool: the cell of a valid (feature, sample) lies inside the feature's block *)
 Theorem C08_reads_in_bounds : forall st fj sj,
   layout_ok st -> 0 <= fj < zlen (s_feats st) -> 0 <= sj < s_samples st ->
